@@ -64,7 +64,12 @@ type Input struct {
 	Methods   []string `json:"methods"`
 	// per certificate, its per-server results as "<server's result>/<kind of typed error>" (see serverErr; ignored
 	// by the model: the aggregation depends on the per-certificate result only)
+	// "nil" instead of such a string: the entry of ServerResults is a nil pointer
 	Servers [][]string `json:"servers"`
+	// positions of the vector whose entry is a NIL pointer (the validator gave no result for that certificate). The
+	// model reads Vec there, which says "unknown" (enforced by the generator): a certificate without a result has an
+	// unknown status - fail closed, never a nil dereference
+	NilEntries []int `json:"nilEntries"`
 	// "scripted": the instrumented validator answers Vec; "stock": the notation-core-go validator behind a
 	// scripted HTTP transport produced Vec, recorded in passing (needs Variant "ocspChain"; ignored by the model)
 	ValidatorImpl    string `json:"validatorImpl"`
@@ -115,6 +120,9 @@ func (in *Input) fill() {
 	}
 	if in.History == nil {
 		in.History = []string{}
+	}
+	if in.NilEntries == nil {
+		in.NilEntries = []int{}
 	}
 }
 
@@ -815,11 +823,25 @@ func runCase(w *world, in Input, format string) Obs {
 			return nil, validatorErr(in.ErrorKind, vctx)
 		}
 		out := make([]*revresult.CertRevocationResult, len(in.Vec))
+		nilAt := map[int]bool{}
+		for _, k := range in.NilEntries {
+			if k < 0 || k >= len(in.Vec) || in.Vec[k] != "unknown" {
+				panic(fmt.Sprintf("c05: nil entry %d of %v: the model must read it as unknown", k, in.Vec))
+			}
+			nilAt[k] = true
+		}
 		for k := 0; k < len(in.Vec); k++ {
+			if nilAt[k] {
+				continue // out[k] stays nil
+			}
 			m := methodMap[in.Methods[k]]
 			cr := &revresult.CertRevocationResult{Result: resMap[in.Vec[k]], RevocationMethod: m}
 			cr.ServerResults = []*revresult.ServerResult{}
 			for j, d := range in.Servers[k] {
+				if d == "nil" {
+					cr.ServerResults = append(cr.ServerResults, nil)
+					continue
+				}
 				res, kind, ok := strings.Cut(d, "/")
 				if _, known := resMap[res]; !ok || !known {
 					panic("c05: bad server result " + d)
@@ -1136,8 +1158,36 @@ func genServers(c *common.Ctx, vec []string) [][]string {
 				out[k] = append(out[k], results[c.Rand.Intn(4)]+"/"+ServerErrKinds[c.Rand.Intn(len(ServerErrKinds))])
 			}
 		}
+		if c.Rand.Intn(8) == 0 {
+			// a nil pointer among the server results (in front, in between or alone)
+			at := c.Rand.Intn(len(out[k]) + 1)
+			out[k] = append(out[k][:at:at], append([]string{"nil"}, out[k][at:]...)...)
+		}
 	}
 	return out
+}
+
+// nilify turns, in one case out of five, the "unknown" entries of a scripted vector into nil pointers (each with
+// probability one half, at least one)
+func nilify(c *common.Ctx, in *Input) {
+	if in.ValidatorImpl != "scripted" || len(in.NilEntries) > 0 || c.Rand.Intn(5) != 0 {
+		return
+	}
+	var unk []int
+	for k, r := range in.Vec {
+		if r == "unknown" {
+			unk = append(unk, k)
+		}
+	}
+	if len(unk) == 0 {
+		return
+	}
+	forced := unk[c.Rand.Intn(len(unk))]
+	for _, k := range unk {
+		if k == forced || c.Rand.Intn(2) == 0 {
+			in.NilEntries = append(in.NilEntries, k)
+		}
+	}
 }
 
 var entries = []string{"oci", "blob", "blobGlobal"}
@@ -1232,10 +1282,22 @@ func Run(c *common.Ctx) error {
 		byAction[a] = append(byAction[a], st)
 	}
 	emit := func(in Input, format string) Obs {
+		nilify(c, &in)
 		in.fill()
 		o := runCase(w, in, format)
 		c.Emit(in, o)
 		c.Count("outcome=" + o.Outcome)
+		if len(in.NilEntries) > 0 {
+			c.Count(fmt.Sprintf("nil-entries=%d", len(in.NilEntries)))
+			c.Count("nil-entries/outcome=" + o.Outcome)
+		}
+		for _, sv := range in.Servers {
+			for _, d := range sv {
+				if d == "nil" {
+					c.Count("nil-server-result")
+				}
+			}
+		}
 		c.Count("entry=" + in.Entry)
 		if in.ExtraMethod != "" {
 			c.Count("extraMethod=" + in.Iface + "/" + in.ExtraMethod)
@@ -1304,6 +1366,52 @@ func Run(c *common.Ctx) error {
 								emit(in, format)
 								c.Count(fmt.Sprintf("n=%d", n))
 							}
+						}
+					}
+				}
+			}
+		}
+	}
+	// nil entries: every vector over chains up to three with an Unknown certificate x every non-empty set of its Unknown
+	// positions answered with a NIL pointer x both interfaces x every action x where a nil server result sits in the
+	// other entries (nowhere, alone, among real ones)
+	for n := 1; n <= 3; n++ {
+		for _, vec := range vectors(n) {
+			var unk []int
+			for k, r := range vec {
+				if r == "unknown" {
+					unk = append(unk, k)
+				}
+			}
+			for mask := 1; mask < 1<<len(unk); mask++ {
+				for _, iface := range []string{"validator", "client"} {
+					for _, action := range []string{"enforce", "log", "skip"} {
+						for nilServer := 0; nilServer < 3; nilServer++ {
+							st := byAction[action][c.Rand.Intn(len(byAction[action]))]
+							in := Input{Vec: vec, ChainLen: n, Scheme: []string{"x509", "signingAuthority"}[c.Rand.Intn(2)], Iface: iface,
+								Level: st.level, RevOverride: st.rev, OtherOverrides: []string{}, PolicyForm: pickForm(c), CallerCtx: "background",
+								DeprecatedCtor: c.Rand.Intn(3) == 0, Entry: entries[c.Rand.Intn(len(entries))], ValidatorImpl: "scripted"}
+							if in.Entry == "blobGlobal" && st.level == "skip" {
+								in.Entry = "blob"
+							}
+							for j, k := range unk {
+								if mask&(1<<j) != 0 {
+									in.NilEntries = append(in.NilEntries, k)
+								}
+							}
+							for k := 0; k < n; k++ {
+								in.Methods = append(in.Methods, methods[c.Rand.Intn(len(methods))])
+								sv := []string{}
+								switch nilServer {
+								case 1:
+									sv = []string{"nil"}
+								case 2:
+									sv = []string{"unknown/" + ServerErrKinds[1+c.Rand.Intn(len(ServerErrKinds)-1)], "nil", consistent(vec[k]), "nil"}
+								}
+								in.Servers = append(in.Servers, sv)
+							}
+							emit(in, []string{common.MediaJWS, common.MediaCOSE}[c.Rand.Intn(2)])
+							c.Count("nil-entries-block")
 						}
 					}
 				}
@@ -1593,6 +1701,6 @@ func Run(c *common.Ctx) error {
 		c.Count("other-type-failure-after-history")
 	}
 	c.SetExhaustive(true)
-	c.Note("all 340 result vectors over chains of length 1..4 x {x509, signingAuthority} x {validator, deprecated client} x the statements about revocation a user can write (strict / permissive / audit x {no override, enforce, log, skip}, and the level skip: all 13 for chains up to three, one per denoted action for chains of four), next to random overrides of other types, policy built in code or parsed from JSON text; validator-level error on a quarter, and a block of every error kind (%d: plain, empty message, typed nil pointer, context.Canceled / DeadlineExceeded bare, wrapped, joined, from the validator's own timeout / cancellation, url.Error, net timeouts, os.ErrDeadlineExceeded, typed OCSP / chain errors) x caller context {background, live deadline, cancelled, expired} x both interfaces x logging and enforcing statements; random method annotations; per-server results behind every per-certificate result (none, one, several; typed OCSP / CRL / chain errors, all servers timed out, a server that answered among errored ones) at random everywhere and in a block of every vector with an Unknown certificate x every error kind x three shapes; the stock notation-core-go validator (both interfaces) behind an HTTP transport whose per-certificate OCSP responders answer good / revoked / unknown / garbage / 503 / refuse / time out, its report recorded as the vector; half of the fresh verifiers primed with an all-OK answer for the same chain; the dynamic type of the supplied object (a deprecated client that ALSO has ValidateContext, a context-aware validator that ALSO has Validate, that other method answering all OK / all revoked / an error; a timestamping validator supplied next to it): at random on a quarter of the enumeration and a block of every vector up to three x both interfaces x 3 answers x 3 actions; one long-lived verifier holding several statements in one or BOTH documents (OCI + blob; a namesake of the applicable statement in the other document, other scopes, the wildcard / global statement) saying different things about revocation, with a declared history of earlier calls (Verify / VerifyBlob under the companions or the applicable statement, SkipVerify) before the observed call, through all three entry points (Verify, VerifyBlob by name, VerifyBlob global): a block of 3 entry points x 13 statements x 3 companion actions x 6 placements / orders, and at random on the enumeration; real JWS/COSE envelopes through verifier.Verify / VerifyBlob", len(ErrorKinds))
+	c.Note("all 340 result vectors over chains of length 1..4 x {x509, signingAuthority} x {validator, deprecated client} x the statements about revocation a user can write (strict / permissive / audit x {no override, enforce, log, skip}, and the level skip: all 13 for chains up to three, one per denoted action for chains of four), next to random overrides of other types, policy built in code or parsed from JSON text; validator-level error on a quarter, and a block of every error kind (%d: plain, empty message, typed nil pointer, context.Canceled / DeadlineExceeded bare, wrapped, joined, from the validator's own timeout / cancellation, url.Error, net timeouts, os.ErrDeadlineExceeded, typed OCSP / chain errors) x caller context {background, live deadline, cancelled, expired} x both interfaces x logging and enforcing statements; random method annotations; per-server results behind every per-certificate result (none, one, several; typed OCSP / CRL / chain errors, all servers timed out, a server that answered among errored ones) at random everywhere and in a block of every vector with an Unknown certificate x every error kind x three shapes; NIL pointers in the answer: a nil ENTRY of the vector (read by the model as unknown: fail closed, never a nil dereference) on a fifth of the scripted vectors that hold an Unknown and in a block of every vector up to three x every non-empty set of its Unknown positions x both interfaces x 3 actions x 3 placements of nil SERVER results, which also occur at random among the server results everywhere; the stock notation-core-go validator (both interfaces) behind an HTTP transport whose per-certificate OCSP responders answer good / revoked / unknown / garbage / 503 / refuse / time out, its report recorded as the vector; half of the fresh verifiers primed with an all-OK answer for the same chain; the dynamic type of the supplied object (a deprecated client that ALSO has ValidateContext, a context-aware validator that ALSO has Validate, that other method answering all OK / all revoked / an error; a timestamping validator supplied next to it): at random on a quarter of the enumeration and a block of every vector up to three x both interfaces x 3 answers x 3 actions; one long-lived verifier holding several statements in one or BOTH documents (OCI + blob; a namesake of the applicable statement in the other document, other scopes, the wildcard / global statement) saying different things about revocation, with a declared history of earlier calls (Verify / VerifyBlob under the companions or the applicable statement, SkipVerify) before the observed call, through all three entry points (Verify, VerifyBlob by name, VerifyBlob global): a block of 3 entry points x 13 statements x 3 companion actions x 6 placements / orders, and at random on the enumeration; real JWS/COSE envelopes through verifier.Verify / VerifyBlob", len(ErrorKinds))
 	return nil
 }
